@@ -92,3 +92,31 @@ def scramble(ms):
     """A fixed, non-sorted presentation of a multiset (sorted input hides a missing sort): riffle of the ascending order."""
     a = sorted(ms)
     return tuple(a[1::2] + a[0::2])
+
+
+# ---- "every count" families: every number of bins / covered bins / requested bins up to M, not only small ones
+def count_sweep_packing(tier):
+    """-> (items, B, optimum number of bins): for EVERY m in 1..M, inputs that need exactly m bins (B=10: m items of 6, each
+    forcing its own bin, plus fillers of 4 / 3 / 1 that fit beside them).  A batch size, a growth step or a threshold on the
+    number of open bins (16, 32, 64, 100 ...) lies inside the range."""
+    M = 40 if tier == "quick" else 140
+    for m in range(1, M + 1):
+        for fill in ((), (4,) * m, (4,) * (m // 2) + (3,) * (m // 3), (1,) * (2 * m)):
+            yield (6,) * m + fill, 10, m
+
+
+def count_sweep_cover(tier):
+    """-> (items, B, optimum number of covered bins) for every m in 1..M: m exactly-full pairs (6,4) or triples (5,3,2), B=10."""
+    M = 40 if tier == "quick" else 140
+    for m in range(1, M + 1):
+        yield (6, 4) * m, 10, m
+        yield (5, 3, 2) * m, 10, m
+        yield (10,) * m + (1,) * 9, 10, m
+
+
+def count_sweep_partition(tier):
+    """-> (items, k) for every requested number of bins k in 1..M with k-1, k, k+1 and 2k+1 items over {1,2,3}"""
+    M = 24 if tier == "quick" else 70
+    for k in range(1, M + 1):
+        for n in sorted({max(1, k - 1), k, k + 1, 2 * k + 1}):
+            yield tuple((3, 1, 2)[i % 3] for i in range(n)), k
